@@ -38,6 +38,12 @@ invariant("Membrane", "rate-window-bounded", "self.rate_limit is None or len(sel
 
 SIG_LOOP = "for sig in self.signatures"
 LEARNED_LOOP = "for sig in self._learned_patterns.values()"
+construct("ThreatSignature", "operon_ai.organelles.membrane", {"pattern": "p", "level": "@enum:ThreatLevel.DANGEROUS", "description": "d"})
+construct("TLRPattern", "operon_ai.surveillance.innate", {"pattern": "p", "category": "@enum:PAMPCategory.INSTRUCTION_OVERRIDE", "description": "d"})
+construct("JSONValidator", "operon_ai.surveillance.innate", {})
+construct("LengthValidator", "operon_ai.surveillance.innate", {})
+construct("InnateImmunity", "operon_ai.surveillance.innate", {"silent": True})
+
 contract(TM + "._check_rate_limit", "C10", raises=[], inline=False, returns="bool", modifies=["self._request_times"],
          locks={"owned": {"self._rate_lock": ["_request_times"]}},
          ensures={"no-limit-admits": "implies(self.rate_limit is None, result is False)",
